@@ -282,6 +282,8 @@ func Generate(seed uint64, profile string) *Project {
 			Shuffle(r, p.Globs)
 		}
 	}
+	// (swarm, own stream) import styles
+	p.ImportStyles = Stream(seed, "projgen/import-styles/"+profile, 0).Chance(1, 2)
 	// (swarm, order profile, own stream) globs that select only SOME files of a controller package: the files
 	// named after a strict, non-empty subset of the package's controllers. Controllers declared in the other
 	// files are not part of the API; types declared there are still resolved through the package.
